@@ -1,0 +1,39 @@
+//go:build verif
+// +build verif
+
+package galaxy
+
+import (
+	"github.com/emicklei/go-restful"
+	galaxyapi "tkestack.io/galaxy/pkg/api/galaxy"
+	"tkestack.io/galaxy/pkg/network/portmapping"
+	"tkestack.io/galaxy/pkg/policy"
+)
+
+// This file is only compiled with the `verif` build tag. It exports thin wrappers around unexported entry points so that
+// an external verification harness can drive the daemon's request path in-process. It adds no behaviour.
+
+// VerifRequest is requestFunc.
+func (g *Galaxy) VerifRequest(req *galaxyapi.PodRequest) ([]byte, error) {
+	return g.requestFunc(req)
+}
+
+// VerifCNI is the HTTP handler of /cni.
+func (g *Galaxy) VerifCNI(r *restful.Request, w *restful.Response) {
+	g.cni(r, w)
+}
+
+// VerifSetPortMappingHandler replaces the port mapping handler.
+func (g *Galaxy) VerifSetPortMappingHandler(h *portmapping.PortMappingHandler) {
+	g.pmhandler = h
+}
+
+// VerifSetPolicyManager sets the policy manager.
+func (g *Galaxy) VerifSetPolicyManager(pm *policy.PolicyManager) {
+	g.pm = pm
+}
+
+// VerifCleanIPtables is cleanIPtables (the GC's port clean callback).
+func (g *Galaxy) VerifCleanIPtables(containerID string) error {
+	return g.cleanIPtables(containerID)
+}
